@@ -20,6 +20,7 @@ def run(ctx):
     ctx.tlc_mc("MC_UDPSessions", "MC_UDPSessions_C08.cfg", timeout=900)
     ctx.tlc_mc("MC_UDPSessions", "MC_UDPSessions_C08hook.cfg", timeout=900)
     ctx.tlc_mc("MC_UDPSessions", "MC_UDPSessions_C08_mutCheck.cfg", expect_violation=True)
+    ctx.tlc_mc("MC_UDPSessions", "MC_UDPSessions_C08hook_mutVet.cfg", expect_violation=True)
     scns = ctx.tlc_gen("MC_UDPSessions", "Gen_UDPSessions.cfg", num=200 if T else 40, depth=150, timeout=600)
     ctx.write_scenarios("udpsess", scns)
     ctx.go_test("core", "./server/", "TestVerif_C07$", ["harness/core/server/c07_test.go"], timeout=240)
